@@ -19,6 +19,7 @@ TIERS = {
   'thorough': dict(runs=400000, deadline=800, workers=16),
 }
 SELFTEST_RUNS = 240
+GC_EVERY = 40  # the method runs build module classes (cyclic garbage holding jitted functions); jaxlib crashes once its jit cache fills with them
 RULE = (
   'NNX runs: one history (<= 16 ops) on 1-2 Rngs objects with per-stream seeds: draw from a named or missing stream, '
   'split_rngs(splits, only) as call+restore_rngs or as context manager whose body draws and may raise, reseed, draws inside '
@@ -37,7 +38,7 @@ ASSUMPTIONS = [
   'module paths are taken from Module.path (naming is C02 territory); the check is that the key is the stated function of (seed, stream, path, count)',
   'distinctness is demanded modulo the derivation\'s own 32-bit hash truncation: positions whose model hashes coincide are counted in a probe and skipped',
 ]
-PROBES = ['nnx_runs', 'linen_runs', 'missing_stream_default', 'split_ctx_raises', 'restore_resumes', 'reseed', 'jit_draw', 'vmap_draw', 'clone_predicted_duplicate', 'linen_fallback_params', 'separator_on', 'separator_off', 'edit_invariance_checked', 'hash_collision_skipped', 'init_keys_checked', 'linen_jit_child']
+PROBES = ['nnx_runs', 'linen_runs', 'missing_stream_default', 'split_ctx_raises', 'restore_resumes', 'reseed', 'jit_draw', 'vmap_draw', 'clone_predicted_duplicate', 'linen_fallback_params', 'separator_on', 'separator_off', 'edit_invariance_checked', 'hash_collision_skipped', 'init_keys_checked', 'linen_jit_child', 'linen_method_runs', 'plain_and_jitted_method_share_child', 'reseed_several_same_name']
 
 
 def setup_worker(w, tier):
@@ -53,9 +54,28 @@ class BodyError(Exception):
 
 def generate(rs, tier):
   g = stream(rs, 'gen')
-  if g.random() < 0.5:
+  r = g.random()
+  if r < 0.5:
     return gen_nnx(g)
+  if r < 0.62:
+    return gen_methods(g)
   return gen_linen(g)
+
+
+def gen_methods(g):
+  """A setup-style module whose children draw keys; plain methods and nn.jit-ted methods use the same children.  One run =
+  several applies (call scripts) of ONE module class that lives for the whole process, so lifted-transform caches are warm
+  in every state the earlier scripts (of this and of earlier runs) left them."""
+  n = g.choice([1, 2, 2, 3])
+  streams = [g.choice(['noise', 'dropout']) for _ in range(n)]
+  provided = {'params': g.randrange(4)}
+  for s_ in ['dropout', 'noise']:
+    if g.random() < 0.7:
+      provided[s_] = g.randrange(4)
+  ops = []
+  for _ in range(g.randrange(2, 6)):
+    ops.append(dict(op='script', calls=[[g.choice(['plain', 'fast', 'fast']), g.randrange(n)] for _ in range(g.randrange(1, 6))]))
+  return dict(engine='linenworld', knobs=dict(kind='linen_methods', separator=g.random() < 0.6, streams=streams, provided=provided), ops=ops)
 
 
 def gen_nnx(g):
@@ -78,6 +98,9 @@ def gen_nnx(g):
       ops.append(dict(op='split_call', obj=o, splits=g.choice([2, 3]), only=g.choice([None, 'params']), restore_after=g.randrange(0, 3)))
     elif r < 0.76:
       ops.append(dict(op='reseed', obj=o, stream=g.choice(names + ['default']), seed=g.randrange(10, 14)))
+      if g.random() < 0.4:
+        # reseed called on a parent object that reaches every Rngs of the run (several streams carry the same name)
+        ops[-1]['op'] = 'reseed_all'
     elif r < 0.84:
       ops.append(dict(op='jit_draw', obj=o, stream=s, n=g.choice([1, 2])))
     elif r < 0.92:
@@ -271,6 +294,24 @@ class NnxWorld:
       ms.count = np.zeros((), np.uint32)
       res.probe('reseed')
       self.draw(oi, mi, name, 'draw-after-reseed')
+    elif k == 'reseed_all':
+      name = op['stream']
+
+      class Holder(nnx.Module):
+        def __init__(self, items):
+          for i, it in enumerate(items):
+            setattr(self, f'r{i}', it)
+
+      nnx.reseed(Holder(self.real), **{name: op['seed']})
+      hit = [i for i, m in enumerate(self.model) if name in m]
+      for i in hit:
+        ms = self.model[i][name]
+        ms.key = jax.random.key(op['seed'])
+        ms.count = np.zeros((), np.uint32)
+      if len(hit) > 1:
+        res.probe('reseed_several_same_name')
+      for i in hit:
+        self.draw(oi, i, name, f'draw-after-reseed-of-parent[obj {i}]')
     elif k == 'jit_draw':
       name = op['stream']
       ms = self.mstream(mi, name)
@@ -480,6 +521,93 @@ class LinenRun:
       self.log.add(oi, e['kind'], len(got))
 
 
+MCLS = {}
+
+
+def method_class(streams, lift='jit', cached=True, sep=None):
+  # one process-lived class per value of the separator flag: the flag is read while tracing, and flipping a start-up
+  # configuration flag under warm caches is not part of any program
+  key = (tuple(streams), lift, sep)
+  if cached and key in MCLS:
+    return MCLS[key]
+
+  class Noise(nn.Module):
+    strm: str = 'noise'
+
+    @nn.compact
+    def __call__(self):
+      return jax.random.key_data(self.make_rng(self.strm))
+
+  ns = {}
+
+  def setup(self):
+    for i, s_ in enumerate(streams):
+      setattr(self, f'c{i}', Noise(strm=s_))
+
+  ns['setup'] = setup
+  for i in range(len(streams)):
+    def plain(self, _i=i):
+      return getattr(self, f'c{_i}')()
+
+    def fast(self, _i=i):
+      return getattr(self, f'c{_i}')()
+
+    ns[f'plain{i}'] = plain
+    ns[f'fast{i}'] = (nn.jit if lift == 'jit' else nn.fold_rngs)(fast)
+  cls = type('MethodsModel', (nn.Module,), ns)
+  if cached:
+    MCLS[key] = cls
+  return cls
+
+
+class MethodsRun:
+  """Keys inside a lifted method go through the transform's rng forking, so the reference is not the closed-form model
+  but twins of the same program: the process-lived nn.jit class (caches warm from every earlier script of this and of
+  earlier runs), a class built just now (cold caches) and the untraced nn.fold_rngs twin -- one program, one seed, one
+  list of keys.  Scripts made of plain calls only are checked against the closed-form model as well."""
+
+  def __init__(self, plan, res, log):
+    self.plan, self.res, self.log = plan, res, log
+    self.compared = 0
+
+  def run(self):
+    k = self.plan['knobs']
+    sep = k['separator']
+    hot = method_class(k['streams'], sep=sep)
+    seeds = {s_: jax.random.key(100 + v) for s_, v in k['provided'].items()}
+    self.res.probe('linen_method_runs')
+    for oi, op in enumerate(self.plan['ops']):
+      calls = op['calls']
+      method = lambda m: [getattr(m, f'{kind}{i}')() for kind, i in calls]  # noqa: E731
+      out = [np.asarray(x).tobytes() for x in hot().apply({}, rngs=dict(seeds), method=method)]
+      cold = [np.asarray(x).tobytes() for x in method_class(k['streams'], cached=False)().apply({}, rngs=dict(seeds), method=method)]
+      fold = [np.asarray(x).tobytes() for x in method_class(k['streams'], lift='fold')().apply({}, rngs=dict(seeds), method=method)]
+      for name, other in (('the same program on a freshly built class (cold transform caches)', cold), ('its untraced nn.fold_rngs twin', fold)):
+        bad = [j for j, (a_, b_) in enumerate(zip(out, other)) if a_ != b_]
+        if bad:
+          raise Violation('keys-not-deterministic', f'op {oi} script {calls}: call #{bad[0]} {calls[bad[0]]} received a different key than in {name}')
+      counts = {}
+      seen = {}
+      kinds_per_child = {}
+      only_plain = all(kind == 'plain' for kind, _ in calls)
+      for (kind, i), gb in zip(calls, out):
+        strm = k['streams'][i]
+        eff = strm if strm in seeds else 'params'
+        c = counts[(i, eff)] = counts.get((i, eff), 0) + 1
+        if only_plain:
+          want, _ = model_key(seeds[eff], (f'c{i}', c), sep)
+          if gb != np.asarray(jax.random.key_data(want)).tobytes():
+            raise Violation('key-differs-from-model', f'op {oi} script {calls}: call #{len(seen)} (child c{i}, stream {strm!r}, count {c}) did not receive fold_in(seed[{eff!r}], sha1(path + count)) (separator={sep})')
+        if gb in seen:
+          raise Violation('key-reused', f'op {oi} script {calls}: calls {seen[gb]} and {(kind, i, c)} received the same key')
+        seen[gb] = (kind, i, c)
+        kinds_per_child.setdefault(i, set()).add(kind)
+        self.compared += 1
+      if any(len(v) == 2 for v in kinds_per_child.values()):
+        self.res.probe('plain_and_jitted_method_share_child')
+      self.log.add(oi, 'script', len(calls))
+
+
 def execute(plan):
   res = Result()
   log = kernel.Log()
@@ -497,6 +625,13 @@ def execute(plan):
           w.step(oi, op)
       finally:
         compared = w.compared
+    elif k['kind'] == 'linen_methods':
+      flax.config.update('flax_fix_rng_separator', k['separator'])
+      lr = MethodsRun(plan, res, log)
+      try:
+        lr.run()
+      finally:
+        compared = lr.compared
     else:
       res.probe('linen_runs')
       flax.config.update('flax_fix_rng_separator', k['separator'])
